@@ -70,6 +70,7 @@ struct Scan {
     stack: Vec<Value>,
     fn_stack: Vec<String>,
     fn_cfg_stack: Vec<Value>,
+    mutations: Vec<Value>,
     items: Vec<Value>,
     uses: Vec<Value>,
     paths: Vec<Value>,
@@ -297,7 +298,7 @@ impl<'ast> Visit<'ast> for Scan {
     }
 
     fn visit_pat_ident(&mut self, p: &'ast PatIdent) {
-        self.bindings.push(json!({"name": p.ident.to_string(), "fn": self.fn_stack.last(), "cfg": self.cur(), "line": line(p), "allow_unused": self.unused_stack.iter().any(|x| *x)}));
+        self.bindings.push(json!({"name": p.ident.to_string(), "fn": self.fn_stack.last(), "cfg": self.cur(), "line": line(p), "allow_unused": self.unused_stack.iter().any(|x| *x), "mut": p.mutability.is_some()}));
         visit::visit_pat_ident(self, p);
     }
 
@@ -317,6 +318,29 @@ impl<'ast> Visit<'ast> for Scan {
     fn visit_expr(&mut self, e: &'ast Expr) {
         let attrs = expr_attrs(e).to_vec();
         self.with(&attrs, |s| {
+            // places where a local may be mutated: assignment / compound assignment to it (or to a field / index of it), `&mut x`,
+            // and any method call on it (over-approximation: a call may take `&mut self`)
+            fn base_ident(e: &Expr) -> Option<String> {
+                match e {
+                    Expr::Path(p) if p.path.segments.len() == 1 && p.qself.is_none() => Some(p.path.segments[0].ident.to_string()),
+                    Expr::Field(f) => base_ident(&f.base),
+                    Expr::Index(i) => base_ident(&i.expr),
+                    Expr::Paren(p) => base_ident(&p.expr),
+                    Expr::Unary(u) => base_ident(&u.expr),
+                    _ => None,
+                }
+            }
+            let target = match e {
+                Expr::Assign(a) => base_ident(&a.left),
+                Expr::Binary(b) if matches!(b.op, syn::BinOp::AddAssign(_) | syn::BinOp::SubAssign(_) | syn::BinOp::MulAssign(_) | syn::BinOp::DivAssign(_) | syn::BinOp::RemAssign(_)
+                    | syn::BinOp::BitXorAssign(_) | syn::BinOp::BitAndAssign(_) | syn::BinOp::BitOrAssign(_) | syn::BinOp::ShlAssign(_) | syn::BinOp::ShrAssign(_)) => base_ident(&b.left),
+                Expr::Reference(r) if r.mutability.is_some() => base_ident(&r.expr),
+                Expr::MethodCall(m) => base_ident(&m.receiver),
+                _ => None,
+            };
+            if let Some(n) = target {
+                s.mutations.push(json!({"name": n, "cfg": s.cur(), "line": line(e), "fn": s.fn_stack.last()}));
+            }
             if let Expr::Macro(m) = e {
                 s.paths.push(json!({"cfg": s.cur(), "segments": m.mac.path.segments.iter().map(|x| x.ident.to_string()).collect::<Vec<_>>(), "line": line(m), "fn": s.fn_stack.last(), "macro": true}));
                 s.macro_tokens(m.mac.tokens.clone(), line(m));
@@ -372,12 +396,12 @@ fn scan_file(path: &Path, module: Vec<String>, out: &mut Vec<Value>, root: &Path
             return;
         }
     };
-    let mut s = Scan { stack: vec![], fn_stack: vec![], fn_cfg_stack: vec![], items: vec![], uses: vec![], paths: vec![], lets: vec![], variants: vec![], arms: vec![], macro_idents: vec![], item_macros: vec![], bindings: vec![], mods: vec![], assoc_fns: vec![], method_calls: vec![], dead_stack: vec![allows_dead(&file.attrs)], unused_stack: vec![allows_unused(&file.attrs)] };
+    let mut s = Scan { stack: vec![], fn_stack: vec![], fn_cfg_stack: vec![], mutations: vec![], items: vec![], uses: vec![], paths: vec![], lets: vec![], variants: vec![], arms: vec![], macro_idents: vec![], item_macros: vec![], bindings: vec![], mods: vec![], assoc_fns: vec![], method_calls: vec![], dead_stack: vec![allows_dead(&file.attrs)], unused_stack: vec![allows_unused(&file.attrs)] };
     s.stack.extend(cfgs(&file.attrs));
     s.visit_file(&file);
     let rel = path.strip_prefix(root).unwrap_or(path).to_string_lossy().to_string();
     out.push(json!({"path": rel, "module": module, "items": s.items, "uses": s.uses, "paths": s.paths, "lets": s.lets, "variants": s.variants,
-        "arms": s.arms, "macro_idents": s.macro_idents, "item_macros": s.item_macros, "bindings": s.bindings,
+        "arms": s.arms, "macro_idents": s.macro_idents, "item_macros": s.item_macros, "bindings": s.bindings, "mutations": s.mutations,
         "assoc_fns": s.assoc_fns, "method_calls": s.method_calls, "file_allow_dead": allows_dead(&file.attrs),
         "mods": s.mods.iter().map(|(n, c, inl, l, d)| json!({"name": n, "cfg": c, "inline": inl, "line": l, "allow_dead": d})).collect::<Vec<_>>()}));
     // follow out-of-line modules
